@@ -134,7 +134,7 @@ func (rw *rewriter) expr(e ast.Expr, c ctxKind) ast.Expr {
 		return rw.selector(e, c)
 	case *ast.StarExpr:
 		x := rw.expr(e.X, ctxR)
-		if rw.opts.Access && c != ctxPlace {
+		if rw.opts.Access && !rw.opts.NoFields && c != ctxPlace {
 			fn := map[ctxKind]string{ctxR: "R", ctxW: "W", ctxRW: "RW"}[c]
 			rw.count("access-" + fn)
 			return &ast.StarExpr{X: rw.call(fn, x, rw.site(e))}
@@ -239,7 +239,7 @@ func (rw *rewriter) selector(e *ast.SelectorExpr, c ctxKind) ast.Expr {
 			x = rw.expr(e.X, ctxPlace)
 		}
 		ne := &ast.SelectorExpr{X: x, Sel: e.Sel}
-		if rw.opts.Access && c != ctxPlace && rw.addressable(e) && !rw.localRoot(e) && !isSyncType(rw.info.TypeOf(e)) {
+		if rw.opts.Access && !rw.opts.NoFields && c != ctxPlace && rw.addressable(e) && !rw.localRoot(e) && !isSyncType(rw.info.TypeOf(e)) {
 			return rw.wrap(ne, c, e)
 		}
 		return ne
